@@ -25,7 +25,8 @@ def load_prop(pid):
     return importlib.import_module('rv.props.%s' % pid.lower())
 
 
-def run_cases(ctx, mod, only=None, final=True):
+def run_cases(ctx, mod, only=None, final=True, flush_to=None):
+    last_flush = [time.time()]
     from . import install
     install.CURRENT['ctx'] = ctx
     if hasattr(mod, 'setup'):
@@ -40,6 +41,13 @@ def run_cases(ctx, mod, only=None, final=True):
         if ctx.out_of_budget() and not d.get('directed'):
             ctx.count('cases_skipped_soft_budget')
             continue
+        if flush_to and time.time() - last_flush[0] > 3.0:
+            # keep what was observed so far, should the code under test kill this process later
+            tmp = flush_to + '.tmp'
+            with open(tmp, 'w') as f:
+                f.write(jdump(ctx.partial()))
+            os.replace(tmp, flush_to)
+            last_flush[0] = time.time()
         ctx.begin_case(d, nontrivial=d.get('nontrivial', True))
         try:
             mod.run_case(ctx, d)
@@ -130,13 +138,19 @@ def main(argv):
             print('  no violation observed on replay')
         return ctx.finish()
 
-    if tier == 'thorough' and nshards == 1 and partial is None and NSHARDS_THOROUGH > 1 \
-            and getattr(mod, 'SHARDABLE', True):
-        return thorough_parent(ctx, pid, seed)
+    if partial is None:
+        # the workload always runs in supervised child processes: a crash of the native library
+        # (or of the interpreter) is then an observation of the parent, not the end of the check
+        n = NSHARDS_THOROUGH if (tier == 'thorough' and getattr(mod, 'SHARDABLE', True)) else 1
+        return supervise(ctx, pid, seed, tier, n)
 
+    import faulthandler
+    crashfile = open(partial + '.crash', 'w')
+    faulthandler.enable(file=crashfile, all_threads=False)
+    ctx.casefile = partial + '.case'
     ctx.soft_budget = float(os.environ.get('VERIF_SOFT_BUDGET', SOFT_BUDGET[tier]))
     try:
-        run_cases(ctx, mod, final=partial is None)
+        run_cases(ctx, mod, final=partial is None, flush_to=partial)
     except bootstrap.BootstrapError as exc:
         ctx.flag_inconclusive('bootstrap: %s' % exc)
     except Exception as exc:          # a harness bug is never a verdict on the code under test
@@ -150,21 +164,20 @@ def main(argv):
     return ctx.finish()
 
 
-def thorough_parent(ctx, pid, seed):
-    n = NSHARDS_THOROUGH
+def supervise(ctx, pid, seed, tier, n):
     d = os.path.join(bootstrap.VERIF, '.shards', '%s_%d' % (pid, os.getpid()))
     os.makedirs(d, exist_ok=True)
     procs = []
     env = dict(os.environ, VERIF_SEED=str(seed))
     for s in range(n):
         out = os.path.join(d, 'p%d.json' % s)
-        cmd = [sys.executable, '-W', 'ignore', '-m', 'rv.run', pid, 'thorough',
+        cmd = [sys.executable, '-W', 'ignore', '-m', 'rv.run', pid, tier,
                '--shard', '%d/%d' % (s, n), '--partial', out]
         procs.append((s, out, subprocess.Popen(cmd, cwd=bootstrap.VERIF, env=env,
                                                stdout=subprocess.PIPE, stderr=subprocess.STDOUT)))
     # source 3: the repository's own tests as a workload under this property's contracts
     mod = load_prop(pid)
-    if getattr(mod, 'REPO_TESTS_UNDER_CONTRACTS', False):
+    if tier == 'thorough' and getattr(mod, 'REPO_TESTS_UNDER_CONTRACTS', False):
         out = os.path.join(d, 'repotests.json')
         repo_root = os.path.dirname(bootstrap.SRC)
         env2 = dict(env, RV_PROP=pid, RV_PARTIAL=out, MPLBACKEND='Agg', VERIF_TIER='thorough',
@@ -175,7 +188,7 @@ def thorough_parent(ctx, pid, seed):
                                                           stderr=subprocess.STDOUT)))
     for s, out, p in procs:
         try:
-            stdout, _ = p.communicate(timeout=HARD_WATCHDOG['thorough'])
+            stdout, _ = p.communicate(timeout=HARD_WATCHDOG[tier])
         except subprocess.TimeoutExpired:
             p.kill()
             ctx.flag_inconclusive('shard %s timed out' % s)
@@ -191,9 +204,33 @@ def thorough_parent(ctx, pid, seed):
                 'contracts': {k: v for k, v in part['counters'].items() if k.startswith('contract:')}}
             ctx.absorb(part)
             continue
-        if p.returncode != 0 or not os.path.isfile(out):
+        crash = ''
+        try:
+            crash = open(out + '.crash').read()
+        except OSError:
+            pass
+        rc = p.returncode
+        if rc is not None and (rc < 0 or rc in (132, 134, 135, 136, 139) or 'Fatal Python error' in crash):
+            # the code under test killed the interpreter (SIGSEGV / SIGBUS / SIGABRT / SIGFPE ...)
+            last = None
+            try:
+                last = json.load(open(out + '.case'))
+            except Exception:
+                pass
+            if os.path.isfile(out):
+                try:
+                    ctx.absorb(json.load(open(out)))       # what the shard had observed before it died
+                except Exception:
+                    pass
+            ctx.begin_case(last or {'shard': s}, nontrivial=True)
+            ctx.fail('native-crash:the-interpreter-was-killed-while-running-this-case',
+                     {'returncode': rc, 'python_traceback': crash[:1500], 'stdout': stdout.decode(errors='replace')[-300:]},
+                     {'crash': True, 'signal': -rc if rc < 0 else rc - 128})
+            ctx.end_case()
+            continue
+        if rc != 0 or not os.path.isfile(out):
             ctx.flag_inconclusive('shard %s exited %s: %s' %
-                                  (s, p.returncode, stdout.decode(errors='replace')[-300:]))
+                                  (s, rc, stdout.decode(errors='replace')[-300:]))
             continue
         ctx.absorb(json.load(open(out)))
     ctx.nshards = n
